@@ -17,10 +17,11 @@
 // STATUS OF THE LAYER-F PREMISES (see contracts/STRENGTH-c13.md): the `requires` of step_new, step_set_limit,
 // lemma_interest_allows_k_registrations, step_register and of step_statuses via lemma_{retire,ack,loss,rotate}_post_is_step
 // are predicates asserted by discharged harnesses on the real LocalIdRegistry (contracts/kani/transport/lidr.rs, K=1).
-// The premises taken from on_timeout (lemma_timeout_post_is_step, step_timeout_retire_keeps_discipline, step_remove),
-// from on_transmit (lemma_transmit_post_is_step, c13_frame_*) and from PeerIdRegistry (step_peer_*) are the contracts
-// of harnesses that could NOT be discharged within the resource limits (probes/kani_injected_c13_*.rs): for those
-// operations the lemmas show what the contract would give, not what has been established about the code.
+// The premises taken from on_timeout (lemma_timeout_post_is_step, step_timeout_retire_keeps_discipline) and from on_transmit
+// (lemma_transmit_post_is_step, c13_frame_*) are per-entry predicates that layer X verifies on the real loop bodies
+// (verus/extract/c13_local_id_registry_x.rs: on_timeout_loop_body, on_transmit_loop_body; the loop headers are a declared
+// drop).  step_remove (unregister_expired_ids) and the PeerIdRegistry premises (step_peer_*) are still contracts of harnesses
+// that could NOT be discharged (probes/kani_injected_c13_*.rs): for those the lemmas show what the contract would give.
 
 // ================================================================================================
 // issuing side
